@@ -1032,6 +1032,10 @@ class VM:
             r = h(self, cal, args)
             if r is not NotImplemented:
                 return r
+        # a tuple struct's name used as a function (e.g. `.map(PyWastedSortTrack)`)
+        if cal.kind == 'free' and cal.method in self.prog.decls.structs and \
+                self.prog.decls.structs[cal.method] == [str(i) for i in range(len(args))] and args:
+            return Adt(cal.method, 0, tuple(args))
         raise Unmodelled("no semantics for callee `%s`" % func)
 
     _assoc_re = re.compile(r'<([A-Za-z_][\w:]*(?:<[^<>]*>)?) as ([A-Za-z_][\w:]*)(<[^<>]*>)?>::([A-Z]\w*)')
